@@ -5,7 +5,7 @@ PROP = dict(
     rule=("3 directed schedules (the lost-update shape at KV and API level; discard and snapshot under a concurrent non-transactional write) then PRNG-generated schedules: "
           "KV level — up to 3 concurrent transactions of the real Badger store over 3 keys (begin/get/blind set/blind delete/commit/discard + non-transactional gets); "
           "API level — up to 3 explicit DefraDB transactions over 3 documents (create-or-update, Get, GraphQL query, GetAllDocIDs, commit, discard) interleaved with non-transactional "
-          "writes and reads, all single-threaded so the schedule is the input; every operation's result is compared with the multi-version model; a case is one schedule; distinct = schedules"),
+          "writes and reads, all single-threaded so the schedule is the input; every operation's result is compared with the multi-version model; a case is one schedule; distinct = schedules; commits made inside transactions that are open, discarded or refused must not be addressable by cid from outside (a commit that the document's committed history lists is public: content addressing)"),
     assumptions=[
         "Badger detects a conflict at commit iff a key the transaction read from the store (not from its own pending writes) has a newer committed version, and commits of write-less transactions always succeed (the model's rule; compared with the real store on every KV-level schedule)",
         "a document update reads the document it writes (footprint of the API operations; a conflict the model does not require is accepted from the implementation, a missing required conflict is not)",
